@@ -31,6 +31,17 @@ theorem pyTok_idx : pyTok "extract" = "extract" ∧ pyTok "zero_extend" = "zero_
     symName? "extract" = some "extract" ∧ symName? "zero_extend" = some "zero_extend" ∧
     symName? "sign_extend" = some "sign_extend" ∧ symName? "repeat" = some "repeat" := by decide +kernel
 
+theorem pyTok_rot : pyTok "rotate_left" = "rotate_left" ∧ pyTok "rotate_right" = "rotate_right" ∧
+    symName? "rotate_left" = some "rotate_left" ∧ symName? "rotate_right" = some "rotate_right" := by decide +kernel
+
+theorem rotEqs :
+    ("rotate_left" == "extract") = false ∧ ("rotate_left" == "zero_extend") = false ∧
+    ("rotate_left" == "sign_extend") = false ∧ ("rotate_left" == "repeat") = false ∧
+    ("rotate_left" == "rotate_left") = true ∧
+    ("rotate_right" == "extract") = false ∧ ("rotate_right" == "zero_extend") = false ∧
+    ("rotate_right" == "sign_extend") = false ∧ ("rotate_right" == "repeat") = false ∧
+    ("rotate_right" == "rotate_left") = false ∧ ("rotate_right" == "rotate_right") = true := by decide
+
 theorem tokEqs :
     ("extract" == "extract") = true ∧ ("zero_extend" == "extract") = false ∧ ("zero_extend" == "zero_extend") = true ∧
     ("sign_extend" == "extract") = false ∧ ("sign_extend" == "zero_extend") = false ∧
@@ -68,6 +79,23 @@ theorem underscore_repeat (k : String) (nk : Nat) (hk : numeral? k = some nk) :
     if_neg (ne_true tokEqs.2.2.2.2.2.2.2.2.1), if_pos tokEqs.2.2.2.2.2.2.2.2.2]
   simp only [Lit.pyInt_numeral k nk hk, Except.map]
 
+theorem underscore_rol (k : String) (nk : Nat) (hk : numeral? k = some nk) :
+    underscore [.atom "rotate_left", .atom k] = .ok (.fn (.rol (nk : Int))) := by
+  unfold underscore
+  simp only [pyTok_rot.1]
+  rw [if_neg (ne_true rotEqs.1), if_neg (ne_true rotEqs.2.1), if_neg (ne_true rotEqs.2.2.1),
+    if_neg (ne_true rotEqs.2.2.2.1), if_pos rotEqs.2.2.2.2.1]
+  simp only [Lit.pyInt_numeral k nk hk, Except.map]
+
+theorem underscore_ror (k : String) (nk : Nat) (hk : numeral? k = some nk) :
+    underscore [.atom "rotate_right", .atom k] = .ok (.fn (.ror (nk : Int))) := by
+  unfold underscore
+  simp only [pyTok_rot.2.1]
+  rw [if_neg (ne_true rotEqs.2.2.2.2.2.1), if_neg (ne_true rotEqs.2.2.2.2.2.2.1),
+    if_neg (ne_true rotEqs.2.2.2.2.2.2.2.1), if_neg (ne_true rotEqs.2.2.2.2.2.2.2.2.1),
+    if_neg (ne_true rotEqs.2.2.2.2.2.2.2.2.2.1), if_pos rotEqs.2.2.2.2.2.2.2.2.2.2]
+  simp only [Lit.pyInt_numeral k nk hk, Except.map]
+
 theorem isToBv_ne (u f : String) (x : Sexp) (h : (pyTok u == "_" && pyTok f == "to_bv") = false) :
     isToBvS (.list [.atom u, .atom f, x]) = none := by
   simp only [isToBvS]
@@ -93,6 +121,8 @@ theorem indices_two {i j : String} {ns : List Nat} (h : indices [.atom i, .atom 
 /-- a head that is a list: the parser evaluates it to the function the standard applies -/
 theorem head_agree (env : SEnv) (sc : List Binding) (Γ : PEnv) (hc : Corr env sc Γ) (hd : List Sexp)
     (hf : fragHead hd = true) (as : List TT) (u : Term) (τ : Ty) (hargs : ∀ a ∈ as, TOK (mkNorm a.1) a.2)
+    (hrot : ∀ f k kk, hd = [.atom "_", .atom f, .atom k] → (f = "rotate_left" ∨ f = "rotate_right") →
+      numeral? k = some kk → ∀ a ∈ as, ∀ m, a.2 = .bv m → kk ≤ m)
     (hstd : applyHead env hd as = .ok (u, τ)) :
     ∃ fn, isToBvS (.list hd) = none ∧ rdVal Γ false (.list hd) = .ok (.fn fn, Γ.mgr) ∧ Agrees fn as u τ := by
   match hd, hf with
@@ -113,7 +143,7 @@ theorem head_agree (env : SEnv) (sc : List Binding) (Γ : PEnv) (hc : Corr env s
     · match x, hx with
       | .atom k, _ =>
         have hund : pyTok "_" = "_" := by decide
-        rcases hf with (rfl | rfl) | rfl
+        rcases hf with (((rfl | rfl) | rfl) | rfl) | rfl
         · simp only [applyHead, pyTok_idx.2.2.2.2.2.1] at hstd
           cases hidx : indices [.atom k] with
           | none => simp [hidx] at hstd
@@ -138,6 +168,24 @@ theorem head_agree (env : SEnv) (sc : List Binding) (Γ : PEnv) (hc : Corr env s
             simp only [hidx, List.isEmpty_cons, Bool.false_eq_true, if_false] at hstd
             refine ⟨.rep nk, isToBv_ne _ _ _ (by rw [hund]; decide), ?_, ag_repeat nk as u τ hargs hstd⟩
             rw [rdVal_underscore, underscore_repeat k nk hk]; rfl
+        · simp only [applyHead, pyTok_rot.2.2.1] at hstd
+          cases hidx : indices [.atom k] with
+          | none => simp [hidx] at hstd
+          | some ns =>
+            obtain ⟨nk, hk, rfl⟩ := indices_one hidx
+            simp only [hidx, List.isEmpty_cons, Bool.false_eq_true, if_false] at hstd
+            refine ⟨.rol nk, isToBv_ne _ _ _ (by rw [hund]; decide), ?_,
+              ag_rol nk as u τ hargs (hrot _ _ nk rfl (Or.inl rfl) hk) hstd⟩
+            rw [rdVal_underscore, underscore_rol k nk hk]; rfl
+        · simp only [applyHead, pyTok_rot.2.2.2] at hstd
+          cases hidx : indices [.atom k] with
+          | none => simp [hidx] at hstd
+          | some ns =>
+            obtain ⟨nk, hk, rfl⟩ := indices_one hidx
+            simp only [hidx, List.isEmpty_cons, Bool.false_eq_true, if_false] at hstd
+            refine ⟨.ror nk, isToBv_ne _ _ _ (by rw [hund]; decide), ?_,
+              ag_ror nk as u τ hargs (hrot _ _ nk rfl (Or.inr rfl) hk) hstd⟩
+            rw [rdVal_underscore, underscore_ror k nk hk]; rfl
     · -- (as const σ)
       have has : pyTok "as" = "as" := by decide
       have hnb : isToBvS (.list [.atom "as", .atom f, x]) = none :=
